@@ -40,8 +40,11 @@ def handle : Handler := fun j => do
       | .ok .null => none
       | .ok other => some ("<" ++ other.compress ++ ">")
       | .error _ => none
+    let jwk : Option KeyDesc ← match hj.getObjVal? "jwk" with
+      | .ok (.obj o) => do pure (some (← parseKd (.obj o)))
+      | _ => pure none
     let h : Hdr := { alg := alg, kid := getStrOpt hj "kid", crit := strList hj "crit",
-                     critWellFormed := getBoolD hj "critWellFormed" true, members := (strList hj "members").getD [] }
+                     critWellFormed := getBoolD hj "critWellFormed" true, members := (strList hj "members").getD [], jwk := jwk }
     let aj ← j.getObjVal? "arg"
     let arg ← match aj.getObjVal? "single" with
       | .ok k => do pure (KeyArg.single (← parseKd k))
@@ -49,7 +52,10 @@ def handle : Handler := fun j => do
         | .ok (.arr a) => do pure (KeyArg.keySet (← a.toList.mapM parseKd))
         | _ => match aj.getObjVal? "dictSet" with
           | .ok (.arr a) => do pure (KeyArg.dictSet (← a.toList.mapM parseKd))
-          | _ => throw "arg"
+          | _ => match aj.getObjVal? "resolver" with
+            | .ok (.obj o) => do pure (KeyArg.resolver (some (← parseKd (.obj o))))
+            | .ok .null => pure (KeyArg.resolver none)
+            | _ => if (aj.getObjVal? "absent").isOk then pure KeyArg.absent else throw "arg"
     match policy generatedRegistry Generated.Jose.privateKeyOps (strList j "allowed") ((strList j "private_headers").getD []) h arg with
     | .ok (a, k) => pure (Json.mkObj [("ok", Json.mkObj [("alg", algStr a), ("ident", k.ident)])])
     | .error e => pure (Json.mkObj [("error", errStr e)])
